@@ -5,6 +5,7 @@ import (
 	"fmt"
 	"math"
 	"os"
+	"runtime"
 	"sort"
 	"strings"
 
@@ -187,7 +188,8 @@ func withExplicitDefaults(jobs []opJob) []opJob {
 }
 
 func runOpJobs(c *hx.Checker, jobs []opJob) {
-	jobs = withReversedAttrs(withExplicitDefaults(filterJobs(jobs)))
+	plain := filterJobs(jobs)
+	jobs = withReversedAttrs(withExplicitDefaults(plain))
 	c.ParallelFor(len(jobs), func(i int) {
 		j := &jobs[i]
 		sample := map[string]any{"id": j.id, "domain": j.dom}
@@ -199,6 +201,36 @@ func runOpJobs(c *hx.Checker, jobs []opJob) {
 			return v
 		})
 	})
+	runLargeUnderProcs(c, plain)
+}
+
+// runLargeUnderProcs: the number of processors the runtime reports is an environment answer: a kernel that splits its
+// work by runtime.GOMAXPROCS / NumCPU takes other block sizes on another machine. The large cases (the only ones such
+// splitting applies to) are run again with the runtime set to 1, 3, 7 and 64 processors.
+func runLargeUnderProcs(c *hx.Checker, jobs []opJob) {
+	var large []int
+	for i := range jobs {
+		for _, t := range jobs[i].tags {
+			if t == "large" {
+				large = append(large, i)
+				break
+			}
+		}
+	}
+	if len(large) == 0 {
+		return
+	}
+	old := runtime.GOMAXPROCS(0)
+	defer runtime.GOMAXPROCS(old)
+	for _, procs := range []int{1, 3, 7, 64} {
+		runtime.GOMAXPROCS(procs)
+		c.ParallelFor(len(large), func(k int) {
+			j := &jobs[large[k]]
+			c.Case(hx.CaseInfo{ID: fmt.Sprintf("%s/GOMAXPROCS=%d", j.id, procs), Tags: append(append([]string{}, j.tags...), "gomaxprocs"), NonTrivial: j.nt}, func() *hx.Violation {
+				return judgeOp(j.oc, j.dom, j.exp, j.cmp)
+			})
+		})
+	}
 }
 
 // extremeInts: attribute / index values at the edges of the 64- and 32-bit ranges.
